@@ -22,6 +22,7 @@ import (
 	"sync/atomic"
 	"syscall"
 	"time"
+	_ "time/tzdata" // zone data for the daylight-saving workloads, independent of the host
 )
 
 // Violation is one observed refutation of the property.
